@@ -584,7 +584,8 @@ class WriterThread(threading.Thread):
                 ids = set(
                     (bytes_from_hex(tag[1]) for tag in event.tags if tag[0] == "e")
                 )
-            except IndexError:
+            except (IndexError, ValueError):
+                # an "e" tag without a value, or one that is not an event id
                 ids = []
             if not ids:
                 return
